@@ -334,9 +334,23 @@ func ruleC19(c *Ctx) {
 	// Tm formula
 	tm := tb.T(rets[0].Results[0])
 	stTm, whyTm := unknown, "Tm is "+short(tm.String())
+	// a result cut off at a constant (math.Max(tm, 0), `if tm < 0 { tm = 0 }`) is the formula only on one side of it
+	clamp := ""
+	if (tm.isCall("math.Max") || tm.isCall("math.Min") || (tm.Op == "phi" && !tm.Cyc)) && len(tm.Args) == 2 {
+		for k := 0; k < 2; k++ {
+			if kf, isK := tm.Args[k].constFloat(); isK && tm.Args[1-k].isBin("-") && tm.Args[1-k].Args[0].isBin("/") {
+				clamp = fmt.Sprintf("the temperature handed back is the constant %v on some inputs (cut off with %s): there the result is not the formula's value, and inputs that differ give the same answer", kf, map[bool]string{true: "a branch", false: tm.Name}[tm.Op == "phi"])
+				tm = tm.Args[1-k]
+				break
+			}
+		}
+	}
 	if tm.isBin("-") && tm.Args[0].isBin("/") {
 		num, den := tm.Args[0].Args[0], tm.Args[0].Args[1]
 		var problems, unknowns []string
+		if clamp != "" {
+			problems = append(problems, clamp)
+		}
 		if k, ok := tm.Args[1].constFloat(); !ok || k != 273.15 {
 			if ok {
 				problems = append(problems, fmt.Sprintf("Kelvin offset %v, want 273.15", k))
